@@ -200,7 +200,7 @@ def confirm_value(ctx, rp):
     o = rp["case"]
     p = os.path.join(ctx.work, "cand%d" % len(os.listdir(ctx.work)))
     if o["e"] == "portion":
-        open(p + ".in", "w").write(json.dumps({"lex": o["lex"], "n": o["pn"], "d": o["pd"]}) + "\n")
+        open(p + ".in", "w").write(json.dumps({"lex": o["lex"], "n": o["pn"], "d": o["pd"], "zk": o.get("zk", 0) if o.get("long") else 0}) + "\n")
         ctx.vh_json(["portion-check", p + ".in", p + ".out"])
     else:
         open(p + ".in", "w").write(json.dumps({"type": o["type"], "text": o["text"], "canon": o["canon"]}) + "\n")
